@@ -39,10 +39,12 @@ structure BSt where
   k : Nat := 0
   runs : Nat := 0
   m : Model.Funcs.BSt
+  /-- the callback's `j`-th run returns `base + j` -/
+  base : Int := 100
 
 def beforeKind : Kind where
   σ := BSt
-  init := fun ps => match ps with | [.int n, _] => some { n := n, m := { n := n } } | _ => none
+  init := fun ps => match ps with | [.int n, _, .int b] => some { n := n, m := { n := n }, base := b } | _ => none
   step := fun st l =>
     match failRes l with
     | some c => { st := st, spec := some c }
@@ -52,11 +54,11 @@ def beforeKind : Kind where
       let k := st.k + 1
       let should := beforeRuns st.n k
       let runs := st.runs + (if should then 1 else 0)
-      -- results are 100 + run number; with no run so far the zero value is returned
-      let wantRet : Int := if runs = 0 then 0 else 100 + runs
+      -- results are base + run number; with no run so far the zero value is returned
+      let wantRet : Int := if runs = 0 then 0 else st.base + runs
       let okRan := ran = (if should then 1 else 0)
       -- model: cache without expiry (the harness creates it with expiration -1), callback result 100 + run number
-      let (m', mran, mret) := Model.Funcs.beforeCall (-1) 0 (fun j => 100 + (j : Int)) st.m
+      let (m', mran, mret) := Model.Funcs.beforeCall (-1) 0 (fun j => st.base + (j : Int)) st.m
       { st := { st with k := k, runs := runs, m := m' }, tags := ["before"], nontrivial := st.n ≥ 1 && k > st.n.toNat
         model := some [.int (if mran then 1 else 0), .int mret]
         spec := if !okRan then some "before:runs-first-n-only"
@@ -70,10 +72,11 @@ structure OSt where
   reran : Bool := false
   now : Int := 0
   cell : Model.Funcs.Cell := none
+  base : Int := 100
 
 def onceKind : Kind where
   σ := OSt
-  init := fun ps => match ps with | [.int e] => some { exp := e } | _ => none
+  init := fun ps => match ps with | [.int e, .int b] => some { exp := e, base := b } | _ => none
   step := fun st l =>
     match failRes l with
     | some c => { st := st, spec := some c }
@@ -83,7 +86,7 @@ def onceKind : Kind where
       { st := { st with cands := st.cands.map fun s => { s with now := s.now + ms }, now := st.now + ms }, tags := ["sleep"] }
     | "call", [], [.int ran, .int ret] =>
       -- the value a run would produce now: 100 + (runs so far + 1)
-      let fresh : Int := 100 + st.runs + 1
+      let fresh : Int := st.base + st.runs + 1
       let alts := fun (s : OnceSt) => [true, false].map fun c =>
         let (s', r, v) := onceCall st.exp c s fresh
         (s', ([.int r, .int v] : List Val))
@@ -124,23 +127,31 @@ def retryKind : Kind where
         let (ma, me, mc) := Model.Funcs.retry n script
         { st := st, tags := ["retry"], nontrivial := wantCalls ≥ 2, spec := clause
           model := some [.int ma, .atom (if me then "err" else "ok"), .int mc] }
-    | "retrydelay", [.int n, .int d, sc], [.int attempts, .atom e, .int calls, stamps] =>
-      match sc.ints?, stamps.ints? with
-      | some sc, some stamps =>
+    | "retrydelay", .int n :: .int d :: sc :: rest, [.int attempts, .atom e, .int calls, stamps, ends] =>
+      let durs? : Option (List Int) := match rest with
+        | [] => some []
+        | [du] => du.ints?
+        | _ => none
+      match sc.ints?, stamps.ints?, ends.ints?, durs? with
+      | some sc, some stamps, some ends, some durs =>
         let script := boolsOf sc
         let wantCalls := retryCalls n script
         let clause :=
           if calls ≠ wantCalls then some "retrydelay:number-of-calls"
           else if attempts ≠ retryFailures n script then some "retrydelay:failed-attempts-reported"
           else if (e == "err") != retryLastFails n script then some "retrydelay:last-error-reported"
-          else if stamps.length ≠ wantCalls || !(spaced d stamps) then some "retrydelay:waits-at-least-d"
+          else if stamps.length ≠ wantCalls || ends.length ≠ wantCalls || !(spaced d stamps) ||
+                  !(gapped d (stamps.zip ends)) then some "retrydelay:waits-at-least-d"
           else none
-        -- model: under the virtual clock every wait takes exactly `d` (RetryWithDelay has no n < 0 guard)
+        -- model: under the virtual clock every wait takes exactly `d` and attempt i exactly durs[i]
+        -- (RetryWithDelay has no n < 0 guard)
         let (ma, me, mc) := Model.Funcs.retryLoop script n.toNat 0 false
-        let mstamps := Model.Funcs.retryDelayStamps script (fun _ => d) n.toNat 0 0
-        { st := st, tags := ["retrydelay"], nontrivial := wantCalls ≥ 2, spec := clause
-          model := some [.int ma, .atom (if me then "err" else "ok"), .int mc, Val.ofInts mstamps] }
-      | _, _ => { st := st, bad := some "retrydelay args" }
+        let times := Model.Funcs.retryDelayTimes script (fun _ => d) (fun i => durs.getD i 0) n.toNat 0 0
+        { st := st, tags := [if durs.any (· > 0) then "retrydelay-slow-attempts" else "retrydelay"]
+          nontrivial := wantCalls ≥ 2, spec := clause
+          model := some [.int ma, .atom (if me then "err" else "ok"), .int mc,
+                         Val.ofInts (times.map (·.1)), Val.ofInts (times.map (·.2))] }
+      | _, _, _, _ => { st := st, bad := some "retrydelay args" }
     | _, _, _ => { st := st, bad := some "retry line" }
 
 end GoguVerif.Kinds.Funcs
